@@ -54,6 +54,8 @@ def Fn.apply : Fn → List Int → Except Int (List Int)
     `set_value()`, `set_error(code)` or `set_stopped()`. -/
 inductive Sch where
   | v | e (c : Int) | s
+  | p     -- pika's `thread_pool_scheduler` on a running pool: completes with `set_value()` on a
+          -- worker thread (placement is not part of the completion signal)
   deriving DecidableEq, Repr
 
 inductive Term where
@@ -73,6 +75,10 @@ inductive Term where
   | sp (p : Term)                         -- split (one consumer)
   | es (p : Term)                         -- ensure_started
   | st (i : Nat) (p : Term)               -- split_tuple of (v, reverse v), element i
+  | bulk (n : Nat) (f : Fn) (p : Term)    -- bulk (generic fallback): `f` on `(values, i)`, i < n
+  | rs (p : Term)                         -- require_started
+  | dos (p : Term)                        -- drop_operation_state
+  | sd (sc : Sch)                         -- schedule(sc) (| then(-> empty vector))
   deriving Repr
 
 /-! ## Denotation -/
@@ -98,6 +104,28 @@ def applySch (sc : Sch) : Sig → Sig
     | .v => .value vs
     | .e c => .error c
     | .s => .stopped
+    | .p => .value vs
+  | o => o
+
+/-- `bulk(n, f)` (generic fallback `bulk_receiver::set_value`): `f(i, values...)` for
+    `i = 0 … n-1` on the values by reference — the harness' callable replaces the values by
+    `f (values ++ [i])` — stopping at the first exception. -/
+def bulkRun (f : Fn) : Nat → Nat → List Int → Except Int (List Int)
+  | _, 0, vs => .ok vs
+  | i, n + 1, vs => match f.apply (vs ++ [(i : Int)]) with
+    | .ok r => bulkRun f (i + 1) n r
+    | .error e => .error e
+
+/-- the rest of a bulk loop that has reached index `i` with `n` iterations to go -/
+def applyBulkFrom (i n : Nat) (f : Fn) (vs : List Int) : Sig :=
+  match bulkRun f i n vs with
+  | .ok r => .value r
+  | .error e => .error e
+
+def applyBulk (n : Nat) (f : Fn) : Sig → Sig
+  | .value vs => match bulkRun f 0 n vs with
+    | .ok r => .value r
+    | .error e => .error e
   | o => o
 
 def pick (i : Nat) (vs : List Int) : List Int := if i = 0 then vs else vs.reverse
@@ -134,6 +162,10 @@ def denote : Term → List Int → Sig
   | .st i p, env => match denote p env with
     | .value vs => .value (pick i vs)
     | o => o
+  | .bulk n f p, env => applyBulk n f (denote p env)
+  | .rs p, env => denote p env
+  | .dos p, env => denote p env
+  | .sd sc, _ => applySch sc (.value [])
 def denotes : List Term → List Int → List Sig
   | [], _ => []
   | c :: cs, env => denote c env :: denotes cs env
@@ -278,7 +310,18 @@ def schedR (sc : Sch) (a : Nat) (k : Rc) : Rc := fun sig s =>
       | _ => abort s
     | .e c => k (.error c) (touch s)
     | .s => k .stopped (touch s)
+    | .p => match (s.cells a).stored with
+      | .value ws => k (.value ws) (touch s)
+      | _ => abort s
   | o => k o (touch s)
+
+/-- `bulk_receiver`: forwards error/stopped; on a value runs the loop inside try/catch. -/
+def bulkR (n : Nat) (f : Fn) (k : Rc) : Rc := fun sig s => k (applyBulk n f sig) s
+
+/-- `require_started_receiver` / `drop_op_state_receiver`: reach the downstream receiver through
+    the adaptor's own operation state (for drop_operation_state after resetting the
+    predecessor's operation state), forward the signal unchanged. -/
+def fwdR (k : Rc) : Rc := fun sig s => k sig (touch s)
 
 mutual
 /-- `connect` + `start` of the operation for term `t` with receiver `k`. -/
@@ -325,6 +368,10 @@ def start (cfg : Cfg) (t : Term) (env : List Int) (k : Rc) (s : M) : M :=
     visit s.next (fun v => v) k (start cfg p env (storeR true s.next) (alloc {} s))
   | .st i p =>
     visit s.next (pick i) k (start cfg p env (storeR cfg.tupleStoresStopped s.next) (alloc {} s))
+  | .bulk n f p => start cfg p env (bulkR n f k) s
+  | .rs p => start cfg p env (fwdR k) (alloc { done := true } s)     -- `started = true`
+  | .dos p => start cfg p env (fwdR k) (alloc {} s)
+  | .sd sc => k (applySch sc (.value [])) s
 termination_by structural t
 /-- The loop of `start()` over the predecessors' operation states. -/
 def startAll (cfg : Cfg) (cs : List Term) (env : List Int) (r : Nat → Rc) (i : Nat) (s : M) : M :=
